@@ -80,18 +80,22 @@ Theorem C16_spea2_keeps_front : forall o population pop_size out x,
 Proof. intros o population pop_size out x. exact (spea2_keeps_front_g better dom o population pop_size out x dom_asym). Qed.
 Print Assumptions C16_spea2_keeps_front.
 
-(* (4) inheritance never raises, draws from prev + new, returns at most pop_size individuals;
-   steady-state / parameter-free: no repeats and min(pop_size, distinct) when >= 2 distinct
-   individuals exist (a single one is replicated); generational: the first pop_size of new,
-   repeat-free whenever new is *)
+(* (4) inheritance never raises, draws from prev + new, returns at most pop_size individuals
+   (sizes >= 1); steady-state / parameter-free: no individual twice whenever prev and new are
+   individually repeat-free (a single survivor is returned ONCE - the replication exception of the
+   property text is for Selection only) or at least two distinct individuals exist (selection
+   merges repeated uids), and then exactly min(pop_size, distinct) individuals; generational:
+   the first pop_size of new, repeat-free whenever new is *)
 Theorem C16_inheritance_contract : forall sc t o pop_size prev new,
   exists out, inherit sc t o pop_size prev new = Some out /\
-    incl out (prev ++ new) /\ length out <= pop_size /\
+    incl out (prev ++ new) /\ (1 <= pop_size -> length out <= pop_size) /\
     match sc with
     | Generational => out = firstn pop_size new /\ (NoDup (map uid new) -> NoDup (map uid out))
     | _ => (2 <= n_distinct (prev ++ new) ->
               NoDup (map uid out) /\ length out = Nat.min pop_size (n_distinct (prev ++ new))) /\
-           (n_distinct (prev ++ new) = 1 -> exists x, In x (prev ++ new) /\ out = repeat x pop_size)
+           (NoDup (map uid prev) -> NoDup (map uid new) ->
+              NoDup (map uid out) /\
+              (1 <= pop_size -> length out = Nat.min pop_size (n_distinct (prev ++ new))))
     end.
 Proof. exact (inheritance_contract_g better dom). Qed.
 Print Assumptions C16_inheritance_contract.
@@ -217,7 +221,7 @@ Theorem C16_oracle_holds_of_model : forall o cs population pop_size p best new s
   eli_holds_b p best new (elitism p cs best new) = true /\
   (e_type p = KeepNBest \/ ahead_of_head worse best new < length new ->
    eli_head_b p best new (elitism p cs best new) = true) /\
-  inh_holds_b sc pop_size prev new (inherit sc t o pop_size prev new) = true.
+  (1 <= pop_size -> inh_holds_b sc pop_size prev new (inherit sc t o pop_size prev new) = true).
 Proof.
   intros. split; [apply model_sel_holds_b_tournament|]. split; [apply model_eli_holds_b|].
   split; [apply model_eli_head_b|apply model_inh_holds_b].
@@ -246,14 +250,14 @@ Print Assumptions C16_reflection.
    individually repeat-free prev and new, no individual twice - because the steady-state merge
    itself filters prev against new *)
 Theorem C16_inheritance_custom_contract : forall f sc pop_size prev new,
-  well_behaved f ->
+  well_behaved f -> 1 <= pop_size ->
   let out := inherit_custom f sc pop_size prev new in
   incl out (prev ++ new) /\ length out <= pop_size /\
   (NoDup (map uid prev) -> NoDup (map uid new) -> NoDup (map uid out)) /\
   inh_custom_holds_b sc pop_size prev new out = true.
 Proof.
-  intros f sc ps prev new W. destruct (inheritance_custom_contract f sc ps prev new W) as (A & B & C).
-  repeat split; auto. apply model_inh_custom_holds_b, W.
+  intros f sc ps prev new W P. destruct (inheritance_custom_contract f sc ps prev new W) as (A & B & C).
+  repeat split; auto. apply model_inh_custom_holds_b; assumption.
 Qed.
 Print Assumptions C16_inheritance_custom_contract.
 
@@ -328,3 +332,9 @@ Proof. vm_compute. reflexivity. Qed.
 Example ex_custom_survivor :
   inherit_custom (custom_fn TruncBest) SteadyState 3 [e_b; e_c] [e_b; e_a] = [e_b; e_a; e_c].
 Proof. vm_compute. reflexivity. Qed.
+(* a single survivor (the only individual of prev is also the only one of new, or new is empty)
+   is inherited once, for every requested size *)
+Example ex_single_survivor : forall ps,
+  inherit SteadyState Tournament e_o ps [e_a] [e_a] = Some [e_a] /\
+  inherit ParameterFree Spea2 e_o ps [e_a] [] = Some [e_a].
+Proof. intros ps. split; reflexivity. Qed.
